@@ -4,7 +4,7 @@ Monitor: return/raise of every operation of random chained programs over core
 and IOAPI files; oracle wellformed() on the REAL post-state of each step."""
 import numpy as np
 
-from .. import gen_core, gen_ioapi, ops, readerfiles, snapshot
+from .. import gen_core, gen_ioapi, harness, ops, readerfiles, snapshot
 from ..cli import digest
 
 PROP = 'C01'
@@ -64,7 +64,33 @@ def gen(rng, idx, tier, seed):
         fs = {'ioapi': gen_ioapi.gen_spec(rng)}
     else:
         fs = {'core': gen_core.gen_filespec(rng, bounds_prob=0.3)}
-    return {'file': fs, 'prog_seed': int(rng.integers(1 << 30)),
+    points = None
+    if idx % 40 == 22:
+        # a file written by other software in which an integer variable has
+        # missing cells and no missing code of its own; the program starts
+        # with a pointwise selection over that variable's two dimensions
+        big = [d for d in fs['core']['dims'] if d[1] >= 2]
+        if len(big) >= 2:
+            d0, d1 = big[0], big[1]
+            nm = next(n for n in ('pts', 'pm', 'cnt', 'flag', 'q')
+                      if harness.zlib_crc(n) % 2 == 0)
+            fs['core']['vars'].append({
+                'name': nm, 'dims': [d0[0], d1[0]],
+                'dtype': str(rng.choice(['i4', 'i2'])), 'kind': 'data',
+                'mask': 'random', 'fill': -999,
+                'seed': int(rng.integers(1 << 30)), 'attrs': []})
+            n = int(rng.integers(1, 6))
+            l0 = [int(x) for x in rng.integers(0, d0[1], n)]
+            l1 = [int(x) for x in rng.integers(0, d1[1], n)]
+            # (one of the points is a missing cell, where there is one)
+            vs = fs['core']['vars'][-1]
+            mk = np.argwhere(gen_core.maskfor(vs['seed'], (d0[1], d1[1]),
+                                              'random'))
+            if len(mk):
+                l0[0], l1[0] = int(mk[0][0]), int(mk[0][1])
+            points = {d0[0]: {'l': l0}, d1[0]: {'l': l1}}
+    return {'file': fs, 'points': points,
+            'prog_seed': int(rng.integers(1 << 30)),
             'nops': int(rng.integers(1, 7)),
             # every third program of plain files mixes in the functional
             # forms of core/_functions.py
@@ -152,7 +178,8 @@ def run_in(spec, res, d, h):
         try:
             path = os.path.join(d, 'src.nc')
             wrote = False
-            if not ioapi and spec['prog_seed'] % 3 == 0:
+            if not ioapi and (spec['prog_seed'] % 3 == 0 or
+                              spec.get('points')):
                 # written with netCDF4 directly, as other tools write
                 # archive files (packed variables)
                 try:
@@ -251,8 +278,12 @@ def run_in(spec, res, d, h):
     allowed = None
     if spec.get('fn'):
         allowed = list(ops.CORE_OPS) + list(ops.FN_OPS) * 2
+    first = None
+    if spec.get('points') and all(k in f.dimensions for k in spec['points']):
+        def first(cur):
+            return ops.op_points(cur, spec['points'])
     ops.run_program(f, spec['prog_seed'], spec['nops'], allowed=allowed,
-                    on_step=on_step)
+                    on_step=on_step, first=first)
     if results and ops.on_disk(source) and hasattr(source, 'close'):
         # the files obtained from a file on disk are files of their own:
         # they stay well-formed when that file is closed
